@@ -177,6 +177,10 @@ Build(D, n) == IF n = 0 THEN EmptyTree ELSE AppendHash(Build(D, n - 1), D[n])
 (* NewTree(size, hashes, store) / UnMarshal: _update *)
 Update(size, hashes, store) == [size |-> size, hashes |-> hashes, store |-> store, cache |-> Zero]
 UpdateOk(size, hashes) == Len(hashes) = CountBit(size)            \* otherwise panic
+(* Marshal is (size, frontier); UnMarshal INTO A USED tree object: _update replaces size and frontier, keeps the    *)
+(* store and must drop the cached root of the state that is being replaced                                         *)
+Marshal(t) == [size |-> t.size, hashes |-> t.hashes]
+UnMarshalInto(t, snap) == [size |-> snap.size, hashes |-> snap.hashes, store |-> t.store, cache |-> Zero]
 
 (* getSubTreeSize / getSubTreePos / getStoredHashNum *)
 RECURSIVE STS(_, _)
@@ -399,6 +403,11 @@ C06Tree(n) ==
           <<"reload", \A s \in 0..n : ReopenOk(t.store, s) /\
                          AppendAll(Update(s, Build(D, s).hashes, Reopen(t.store, s)),
                                    [i \in 1..(n - s) |-> Dat(LabOf(s + i - 1))], 1) = t>>,
+          <<"reload-used", \A s \in 0..(n + 3) :     \* roll the used tree (root cached) back / forward to a snapshot of size s
+                         LET u == UnMarshalInto(t1, Marshal(Build(D, s))) IN
+                         /\ RootOf(u) = MTH(D, 0, s) /\ u.size = s /\ u.hashes = RefFrontier(D, s)
+                         /\ (s < n + 3 => RootOf(AppendHash(AfterRoot(u), D[s + 1])) = MTH(D, 0, s + 1))
+                         /\ (s < n + 3 => RootWithNewLeaves(AfterRoot(u), <<Dat(LabOf(s))>>) = MTH(D, 0, s + 1))>>,
           <<"hashfull", ~hf.panic /\ hf.root = MTH(D, 0, n) /\ hf.hashes = RefFrontier(D, n)>> }
         row == [n |-> n, root |-> RootOf(t), frontier |-> t.hashes, file |-> t.store,
                 next |-> [k \in 1..3 |-> MTH(D, 0, n + k)]]
